@@ -21,12 +21,12 @@ META = {
             'or a needle spans two nodes, or occurs only in a non-text node / inside an iframe; distinct by (recipe, '
             'selector)',
     'assumptions': ['an element that is itself an HTML iframe is not compared (the statement speaks of nested iframes)',
-                    'script/style/template elements are not generated (bs4 gives their content special string classes)'],
+                    'script/style/rt text (bs4 string subclasses Script, Stylesheet, RubyTextString) is ordinary text: only comments, CDATA, PIs, declarations and doctypes are excluded, as the statement lists'],
 }
 
 TEXTS = ['x', 'x y', 'abc', 'a"b', "it's", 'a\\b', 'é', '\n', ' ', ')', ',', 'ab', 'bc', 'a', '', 'Abc', '  x\ty ',
          'ünï', '\\', '""', 'a\nb', '<', '&amp;', 'א']
-NAMES = ('a', 'b', 'p', 'div', 'iframe', 'span')
+NAMES = ('a', 'b', 'p', 'div', 'iframe', 'span', 'script', 'style', 'rt')
 
 
 def text_of(ctx, el):
